@@ -34,7 +34,7 @@ def sigma_of(p, n, L):
     """sigma = (f+ - f-)^2 / (f+ + f-), 0 when uncharged; p, n counts in a stretch of length L"""
     fp = toreal(p) / toreal(L)
     fn = toreal(n) / toreal(L)
-    return ite(p + n == 0, Fraction(0), (fp - fn) * (fp - fn) / (fp + fn))
+    return ite(p + n == 0, Fraction(0), lambda: (fp - fn) * (fp - fn) / (fp + fn))
 
 
 def sigma_seq(s, N):
@@ -53,7 +53,7 @@ def dform_upto(s, N, b, k):
 
 def dform(s, N, b):
     """mean squared deviation of the blob sigmas (blob size b) from the sequence sigma; 0 if b > N"""
-    return ite(N - b + 1 <= 0, Fraction(0), dform_upto(s, N, b, N - b + 1))
+    return ite(N - b + 1 <= 0, Fraction(0), lambda: dform_upto(s, N, b, N - b + 1))
 
 
 def delta_spec(s, N):
